@@ -309,6 +309,7 @@ func (c *run) bsConsume() {
 		if err2 == nil && !bytes.Equal(d2.stored(), in2.full) {
 			c.violate("bytes-mismatch", who+":second-call", "second call stored %d bytes, read %d", len(d2.stored()), len(in2.full))
 		}
+		c2.sourceBufferReuse(c, who, cons, content)
 	}
 }
 
@@ -360,6 +361,7 @@ func (c *run) txConsume() {
 		if err2 == nil && !bytes.Equal(d2.stored(), in2.full) {
 			c.violate("bytes-mismatch", who+":second-call", "second call stored %d bytes, read %d", len(d2.stored()), len(in2.full))
 		}
+		c2.sourceBufferReuse(c, who, cons, content)
 	}
 }
 
@@ -657,6 +659,52 @@ func (c *run) produce(mode int) {
 		}
 		if src.in.st.ReadsAfterClose > 0 {
 			c.env.Probe("source-read-after-close")
+		}
+	}
+}
+
+// sourceBufferReuse: the stream is one of the caller's own in-memory buffers, and the caller refills that memory after
+// the call (a pooled buffer, a scratch slice): what the destination holds must not move with it.
+func (c2 *run) sourceBufferReuse(c *run, who string, cons runtime.Consumer, content []byte) {
+	for _, mk := range []string{"bytes.Buffer", "bytes.Reader"} {
+		backing := append([]byte(nil), content...)
+		var r io.Reader
+		var buf *bytes.Buffer
+		if mk == "bytes.Buffer" {
+			buf = bytes.NewBuffer(backing)
+			r = buf
+		} else {
+			r = bytes.NewReader(backing)
+		}
+		d3 := c2.makeDest(c.sp.Kind, len(content))
+		if d3.stored == nil {
+			return
+		}
+		var err3 error
+		if pm := kernel.Catch(func() { err3 = cons.Consume(r, d3.arg) }); pm != "" {
+			c.violate("panic", who+":source="+mk, "Consume from a *%s panicked: %s", mk, pm)
+			return
+		}
+		c.env.Log("call", "Consume from the caller's *%s → %s", mk, errClass(err3))
+		if err3 != nil {
+			c.violate("spurious-error", who+":source="+mk, "Consume from a *%s over %d bytes failed without any fault", mk, len(content))
+			return
+		}
+		got := append([]byte(nil), d3.stored()...)
+		if !bytes.Equal(got, content) {
+			c.violate("bytes-mismatch", who+":source="+mk, "from a *%s: stored %d bytes, the source held %d (first difference at %d)", mk, len(got), len(content), firstDiff(got, content))
+			return
+		}
+		for i := range backing {
+			backing[i] ^= 0x55
+		}
+		if buf != nil {
+			buf.Reset()
+			buf.WriteString("refilled by the caller")
+		}
+		if !bytes.Equal(d3.stored(), got) {
+			c.violate("alias", who+":source="+mk, "the destination changed when the caller refilled its own *%s after the call (first difference at %d)", mk, firstDiff(got, d3.stored()))
+			return
 		}
 	}
 }
